@@ -152,6 +152,8 @@ def tokens_to_string(tokens):
         line += token.value
 
         last_pos = token.index + len(token.value)
+        # a token can span lines (string, quoted name, `IS\nNOT`): the next token is compared with the line it ends on
+        line_num += token.value.count('\n')
 
     # last line
     content += line
